@@ -532,6 +532,8 @@ def parseContextBody : Nat → Parser → List Hunk → Except Exn (List Hunk ×
     match parseContextHunk par with
     | .error e => .error e
     | .ok (ol, os, nl, ns, par1) =>
+      -- a half may only be left out if the other half has no changed ('!') line: every such line has its counterpart there
+      if (nl.isEmpty && ol.any (·.op == BANG)) || (ol.isEmpty && nl.any (·.op == BANG)) then .error .invalidArgument else
       match hunkFromContextParts os ol ns nl with
       | .error e => .error e
       | .ok h =>
